@@ -383,8 +383,13 @@ fn fault_scene(log: &[Ev], owner: u16) -> String {
 
 /// Clauses that concern one completed caller: deadline, soundness of the result.
 /// `inst_start` is the arrival of the caller that created the lookup this caller shares.
-fn judge_caller(case: &Case, obs: &Obs, j: usize, c: &CallerObs, owner: u16, tag: u8, l: &mut Local, wit: &dyn Fn() -> Value) {
-    let _ = j;
+fn judge_caller(case: &Case, obs: &Obs, c: &CallerObs, owner: u16, tag: u8, l: &mut Local, wit: &dyn Fn() -> Value) {
+    let owner_arrival = |o: u16| -> Option<u64> {
+        if o == owner {
+            return Some(c.start);
+        }
+        case.callers.get((o as usize).wrapping_sub(1)).map(|p| p.arrive)
+    };
     if let Some(p) = &c.panicked {
         let loc = p.rsplit(" @ ").next().unwrap_or("?");
         l.violation(&format!("panic:{loc}"), &format!("a caller task panicked: {p}"), wit);
@@ -401,9 +406,11 @@ fn judge_caller(case: &Case, obs: &Obs, j: usize, c: &CallerObs, owner: u16, tag
     let dur = end - c.start;
     if dur > T_MS {
         let deadline = c.start + T_MS;
-        let mine = |e: &&Ev| !e.connect && e.tag == tag && (e.owner == owner || tag == TAG_MAIN);
-        let started_late = obs.log.iter().filter(mine).any(|e| e.start >= deadline && e.start <= end);
-        let in_flight = obs.log.iter().filter(|e| e.tag == tag || e.connect).any(|e| e.start < deadline && e.end.map(|x| x > deadline).unwrap_or(true) && e.start <= end);
+        // exchanges of the lookup this caller is attached to: owned by a caller that arrived no
+        // later than this one (a later arrival's own lookup is none of this caller's business)
+        let mine = |e: &&Ev| e.start <= end && (e.connect || (e.tag == tag && owner_arrival(e.owner).map(|a| a <= c.start).unwrap_or(false)));
+        let started_late = obs.log.iter().filter(mine).any(|e| !e.connect && e.start >= deadline);
+        let in_flight = obs.log.iter().filter(mine).any(|e| e.start < deadline && e.end.map(|x| x > deadline).unwrap_or(true));
         let scene = if started_late {
             "attempt-started-at-or-after-deadline"
         } else if in_flight {
@@ -468,7 +475,7 @@ fn judge_single(case: &Case, obs: &Obs, l: &mut Local) {
     }
     let c = &obs.callers[0];
     let owner = owner_id(0);
-    judge_caller(case, obs, 0, c, owner, TAG_MAIN, l, &wit);
+    judge_caller(case, obs, c, owner, TAG_MAIN, l, &wit);
     let (Some(end), Some(res)) = (c.end, c.res.as_ref()) else { return };
     let servers = &obs.servers;
     let deadline = c.start + T_MS;
@@ -489,7 +496,14 @@ fn judge_single(case: &Case, obs: &Obs, l: &mut Local) {
                 );
             }
         }
-        Some(false) => l.outcome("walk:not-demanded"),
+        Some(false) => {
+            l.outcome("walk:not-demanded");
+            let saw_tc = main_log.iter().any(|e| !e.connect && !e.tcp && e.step.starts_with("truncated"));
+            let unasked_udp_healthy = (0..servers.len()).any(|s| !main_log.iter().any(|e| e.srv == s) && matches!(servers[s].udp.at(0), Step::Answer(_)));
+            if saw_tc && unasked_udp_healthy && !definitive && end < deadline {
+                l.outcome("obs:after-truncation-servers-are-not-asked-over-udp-any-more");
+            }
+        }
         None => {
             l.outcome("walk:unjudged-out-of-class");
             if let Res::Rcode(rc) = res {
@@ -557,7 +571,7 @@ fn judge_single(case: &Case, obs: &Obs, l: &mut Local) {
 
     // follow-up on the same pool: must complete, be sound and cause a fresh exchange
     if let Some(f) = &obs.followup {
-        judge_caller(case, obs, 99, f, FOLLOWUP_OWNER, TAG_MAIN, l, &wit);
+        judge_caller(case, obs, f, FOLLOWUP_OWNER, TAG_MAIN, l, &wit);
         if f.end.is_some() && !obs.log.iter().any(|e| !e.connect && e.owner == FOLLOWUP_OWNER) && !matches!(f.res, Some(Res::NoConn)) {
             l.violation("stale-shared-result", "a lookup issued after the previous one completed caused no upstream exchange", wit);
         }
@@ -585,7 +599,7 @@ fn judge_callers(case: &Case, obs: &Obs, single: &Obs, l: &mut Local) {
     }
     // per-caller clauses
     for (j, c) in obs.callers.iter().enumerate() {
-        judge_caller(case, obs, j, c, owner_id(j), case.callers[j].tag, l, &wit);
+        judge_caller(case, obs, c, owner_id(j), case.callers[j].tag, l, &wit);
         if case.callers[j].tag == TAG_OTHER {
             match &c.res {
                 Some(Res::Answer { tag: TAG_OTHER, .. }) => {}
@@ -711,7 +725,7 @@ fn judge_callers(case: &Case, obs: &Obs, single: &Obs, l: &mut Local) {
         });
     }
     if let Some(f) = &obs.followup {
-        judge_caller(case, obs, 99, f, FOLLOWUP_OWNER, TAG_MAIN, l, &wit);
+        judge_caller(case, obs, f, FOLLOWUP_OWNER, TAG_MAIN, l, &wit);
         if f.end.is_some() && !obs.log.iter().any(|e| !e.connect && e.owner == FOLLOWUP_OWNER) && !matches!(f.res, Some(Res::NoConn)) {
             l.violation("stale-shared-result:after-quiescence", "a lookup issued after all callers completed caused no upstream exchange", wit);
         }
@@ -808,6 +822,7 @@ fn refine_alphabets(thorough: bool) -> Alphabets {
         Step::Silent,
         Step::IoErr(24),
         Step::IoErr(SLOW),
+        Step::IoErr(900),
         Step::Reset(24),
         Step::Busy(0),
         Step::ServFail(24),
